@@ -29,6 +29,16 @@ Definition count_users (tr : list tok) : nat := length (filter (fun t => match t
 Example ex_nonvacuous : (3 <= count_stores (trace_of ex_cfg ex_ops))%nat /\ (2 <= count_users (trace_of ex_cfg ex_ops))%nat.
 Proof. vm_compute. split; repeat constructor. Qed.
 
+(* ... of all three kinds that [every_write_is_failure_free] distinguishes: status-changing writes, data-deletion rewrites, and
+   run-state changes that keep status and object *)
+Definition count_kind (f : record -> record -> bool) (tr : list tok) : nat :=
+  length (filter (fun t => match t with TStore (Some p) r ROk => f p r | _ => false end) tr).
+Example ex_write_kinds :
+  (2 <= count_kind (fun p r => negb (Z.eqb (r_status r) (r_status p))) (trace_of ex_cfg ex_ops))%nat /\
+  (1 <= count_kind (fun p r => rs_eqb (r_state r) RSDataDeleted) (trace_of ex_cfg ex_ops))%nat /\
+  (2 <= count_kind (fun p r => Z.eqb (r_status r) (r_status p) && obj_eqb (r_obj r) (r_obj p) && negb (rs_eqb (r_state r) RSDataDeleted)) (trace_of ex_cfg ex_ops))%nat.
+Proof. vm_compute. repeat split; repeat constructor. Qed.
+
 (* ---------- F13 on the engine model: an older finished run, the schedule started three minutes later ---------- *)
 Definition f13_cfg : econfig :=
   mkEcfg [mkStep 1 (BRet true 2) [2] 0 0 0] [] [] [] [mkSched 5%N 1 9 0] [] 0 0 0 (-1) 1000 0 1 false.
